@@ -50,6 +50,7 @@ type c14tState struct {
 	seen  map[string]bool
 	clN   int
 	msgN  int
+	soft  bool // the value under test is NOT producible by the repo's own constructors: count, do not fail
 }
 
 func c14tNew(c *Ctx) *c14tState {
@@ -74,6 +75,10 @@ func c14tNew(c *Ctx) *c14tState {
 var c14tPtrRe = regexp.MustCompile(`\b0xc[0-9a-f]{9}\b`)
 
 func (t *c14tState) fail(sig, detail, replay string) {
+	if t.soft {
+		t.c.Count("info:unreachable-shape:" + sig)
+		return
+	}
 	t.c.Count("fail:" + sig)
 	detail = c14tPtrRe.ReplaceAllString(detail, "<ptr>")
 	replay = c14tPtrRe.ReplaceAllString(replay, "<ptr>")
@@ -2046,7 +2051,9 @@ func (t *c14tState) caseChangeLog() {
 	name := lt.String()
 	c.Count("typed:changelog:" + name + ":" + sh.name)
 	desc := func() string { return c14tLogString(l) + " shape=" + sh.name + "; " + sh.reach }
+	t.soft = strings.HasPrefix(sh.reach, "reachable: no")
 	enc, dec, ok := t.roundTrip(c14tFamLog, "/"+name, l, desc)
+	t.soft = false
 	if ok {
 		d := dec.(*types.ChangeLog)
 		var h1, h2 common.Hash
@@ -2590,6 +2597,48 @@ func (t *c14tState) mutate(f *c14tFam, base []byte) (string, []byte) {
 	return class, b
 }
 
+// c14tDiffWhere locates the first top-level element in which two encodings of "the same" object differ.
+func c14tDiffWhere(fam string, wire, re []byte) string {
+	slice := fam == "blocks" || fam == "changelogs" || fam == "deputynodes" || fam == "netmsg-txs" || fam == "netmsg-Transactions"
+	a, oka := c14tSplit(wire)
+	b, okb := c14tSplit(re)
+	if !oka || !okb {
+		return "head"
+	}
+	if len(a) != len(b) {
+		return "len"
+	}
+	for i := range a {
+		if !bytes.Equal(a[i], b[i]) {
+			if slice {
+				return "elem"
+			}
+			w := fmt.Sprintf("f%d", i)
+			// one more level for nested structs (block header, block body lists)
+			if fam == "block" {
+				x, okx := c14tSplit(a[i])
+				y, oky := c14tSplit(b[i])
+				switch {
+				case !okx || !oky:
+				case len(x) != len(y):
+					w += ".len"
+				case i == 0:
+					for j := range x {
+						if !bytes.Equal(x[j], y[j]) {
+							w += fmt.Sprintf(".f%d", j)
+							break
+						}
+					}
+				default:
+					w += ".elem"
+				}
+			}
+			return w
+		}
+	}
+	return "head"
+}
+
 func (t *c14tState) checkMut(f *c14tFam, class string, b []byte) {
 	c := t.c
 	v := f.fresh()
@@ -2604,6 +2653,18 @@ func (t *c14tState) checkMut(f *c14tFam, class string, b []byte) {
 		return
 	}
 	c.Count("typed:" + f.name + ":mut:" + class + ":accept")
+	// tie of the typed layer of the model (LemoModel/RlpSchema.lean): whatever a reflection-based typed decoder
+	// accepts, the generic decoder (the one modelled and proved canonical) accepts too.
+	var gen interface{}
+	if gerr, gpan := c14tDec(b, &gen); gerr != nil || gpan != "" {
+		switch f.name {
+		case "asset", "accountdata", "changelog", "changelogs", "block", "blocks":
+			// custom DecodeRLP (Profile, ChangeLog payload decoders) ignore Stream.Kind errors: known laxness, see report
+			c.Count("info:" + f.name + "-typed-accepts-generic-rejects:" + class)
+		default:
+			t.fail("c14/"+f.name+"-typed-accepts-generic-rejects", "mutation "+class+": typed decoder accepts, rlp.DecodeBytes into interface{} says "+c14tErrStr(gerr, gpan), c14tHex(b))
+		}
+	}
 	re, eerr, epan := c14tEnc(v)
 	if eerr == nil && epan == "" && bytes.Equal(f.canon(re), f.canon(b)) {
 		return
@@ -2618,7 +2679,12 @@ func (t *c14tState) checkMut(f *c14tFam, class string, b []byte) {
 		detail += "; Hash()=" + h.Hex() + " keccak(wire)=" + crypto.Keccak256Hash(b).Hex() + "; decoded: " + c14tLogString(l)
 	}
 	if f.hashed {
-		t.fail("c14/"+f.name+"-noncanonical-accept/"+class, detail, c14tHex(b))
+		// signature suffix = WHERE the accepted bytes and their re-encoding first differ (top-level field of
+		// the object; "elem" for slice families; "len" when the number of fields differs; "head" when only the
+		// outer header differs) — stable across mutation classes, aligned with the root cause.
+		where := c14tDiffWhere(f.name, b, re)
+		t.fail("c14/"+f.name+"-noncanonical-accept/"+where, "mutation "+class+": "+detail, c14tHex(b))
+		c.Count("typed:" + f.name + ":noncanonical:" + where + ":" + class)
 	} else {
 		c.Count("info:" + f.name + "-noncanonical-accept:" + class)
 	}
